@@ -347,15 +347,15 @@ convert(struct func *f, struct type *dst, struct type *src, struct value *l)
 	return funcinst(f, op, class, l, r);
 }
 
-static void
-calcvla(struct func *f, struct type *t)
+void
+funcvla(struct func *f, struct type *t)
 {
 	struct value *length, *basesize;
 
 	if (!(t->prop & PROPVM))
 		return;
 	if (t->base)
-		calcvla(f, t->base);
+		funcvla(f, t->base);
 	if (t->kind == TYPEFUNC || t->size)
 		return;
 	assert(t->kind == TYPEARRAY);
@@ -377,7 +377,7 @@ funcalloc(struct func *f, struct decl *d)
 	int align;
 
 	assert(!d->type->incomplete);
-	calcvla(f, d->type);
+	funcvla(f, d->type);
 	end = f->end;
 	if (d->type->size) {
 		f->end = f->start;
@@ -740,7 +740,7 @@ funcexpr(struct func *f, struct expr *e)
 	struct type *t, *functype;
 	size_t i;
 
-	calcvla(f, e->type);
+	funcvla(f, e->type);
 	switch (e->kind) {
 	case EXPRIDENT:
 		d = e->u.ident.decl;
@@ -993,7 +993,7 @@ funcexpr(struct func *f, struct expr *e)
 	case EXPRSIZEOF:
 		t = e->u.szof.type;
 		assert(t->kind == TYPEARRAY);
-		calcvla(f, t);
+		funcvla(f, t);
 		/* if the sizeof operand has VLA type, we must evaluate it */
 		if (e->base)
 			funcexpr(f, e->base);
